@@ -59,16 +59,17 @@ const (
 )
 
 type Node struct {
-	K     string // field | inline | spread | spreadref
-	Name  string
-	Meta  bool
-	Kids  []*Node
-	Frag  int // spread / spreadref: fragment number
+	K    string // field | inline | spread | spreadref
+	Name string
+	Meta bool
+	Kids []*Node
+	Frag int // spread / spreadref: fragment number
 	// decorations
 	Alias string
-	Arg   string // for __type: literal | var | defvar
-	Dir   string // "", inc-lit-true, inc-var-true, skip-lit-false, skip-var-false, inc-var-false, skip-lit-true
-	Cond  bool   // inline: "on Query"
+	Arg   string   // for __type: literal | var | defvar
+	TName typeName // for __type: the value of the name argument
+	Dir   string   // "", inc-lit-true, inc-var-true, skip-lit-false, skip-var-false, inc-var-false, skip-lit-true
+	Cond  bool     // inline: "on Query"
 }
 
 func (n *Node) clone() *Node {
@@ -198,6 +199,28 @@ var metaAliases = []string{"", "a", "ping"}
 var fillerAliases = []string{"", "b"}
 var typeArgForms = []string{"literal", "var", "defvar"}
 
+// values of __type's name argument. With introspection disabled every one of them must give
+// null plus an error, indistinguishably; with introspection enabled a name that is not in the
+// schema gives a plain null (spec), an existing one its type.
+type typeName struct {
+	Name   string
+	Exists bool
+	Class  string
+}
+
+var typeNamesFull = []typeName{
+	{sentinelTypeName, true, "user type"},
+	{"NoSuchTypeZq", false, "not in the schema"},
+	{"Query", true, "root type"},
+	{"String", true, "built-in scalar"},
+	{"__Schema", true, "introspection type"},
+	{"", false, "empty string"},
+	{"zqsentineltype", false, "existing name in another case"},
+}
+
+// the short alphabet used for shapes larger than the -names-full-upto bound
+var typeNamesShort = typeNamesFull[:2]
+
 func dirText(d string) (text string, excluded bool) {
 	switch d {
 	case "":
@@ -219,7 +242,7 @@ func dirText(d string) (text string, excluded bool) {
 }
 
 // decorate calls f for every decoration of the skeleton forest (in place; f must render at once).
-func decorate(forest []*Node, dirs []string, f func()) {
+func decorate(forest []*Node, dirs []string, names []typeName, f func()) {
 	var nodes []*Node
 	var walk func(ns []*Node, underMeta bool)
 	walk = func(ns []*Node, underMeta bool) {
@@ -241,14 +264,18 @@ func decorate(forest []*Node, dirs []string, f func()) {
 		switch {
 		case n.K == "field" && n.Meta:
 			args := []string{""}
+			tnames := []typeName{{}}
 			if n.Name == "__type" {
 				args = typeArgForms
+				tnames = names
 			}
 			for _, al := range metaAliases {
 				for _, d := range dirs {
 					for _, a := range args {
-						n.Alias, n.Dir, n.Arg = al, d, a
-						rec(i + 1)
+						for _, tn := range tnames {
+							n.Alias, n.Dir, n.Arg, n.TName = al, d, a, tn
+							rec(i + 1)
+						}
 					}
 				}
 			}
@@ -277,8 +304,9 @@ func decorate(forest []*Node, dirs []string, f func()) {
 type Shape struct {
 	Query     string
 	Variables map[string]any
-	MetaKeys  map[string]string // response key -> __schema | __type, reachable (not excluded)
-	Fillers   map[string]string // response key -> expected JSON text
+	MetaKeys  map[string]string   // response key -> __schema | __type, reachable (not excluded)
+	MetaNames map[string]typeName // response key of a reachable __type -> the name it asks for
+	Fillers   map[string]string   // response key -> expected JSON text
 	Nodes     int
 }
 
@@ -286,6 +314,8 @@ type Shape struct {
 func render(forest []*Node) Shape {
 	var frags = map[int]*Node{}
 	used := map[string]bool{}
+	var nameDecls []string // one variable per __type node that takes its name from a variable
+	nameVars := map[string]any{}
 	var sel func(ns []*Node, indent string) string
 	sel = func(ns []*Node, indent string) string {
 		var b strings.Builder
@@ -307,13 +337,16 @@ func render(forest []*Node) Shape {
 				if n.Name == "__type" && n.Meta {
 					switch n.Arg {
 					case "literal":
-						b.WriteString(fmt.Sprintf("(name: %q)", sentinelTypeName))
+						b.WriteString(fmt.Sprintf("(name: %q)", n.TName.Name))
 					case "var":
-						b.WriteString("(name: $n)")
-						used["n"] = true
+						v := fmt.Sprintf("n%d", len(nameDecls))
+						b.WriteString("(name: $" + v + ")")
+						nameDecls = append(nameDecls, "$"+v+": String!")
+						nameVars[v] = n.TName.Name
 					case "defvar":
-						b.WriteString("(name: $d)")
-						used["d"] = true
+						v := fmt.Sprintf("d%d", len(nameDecls))
+						b.WriteString("(name: $" + v + ")")
+						nameDecls = append(nameDecls, fmt.Sprintf("$%s: String! = %q", v, n.TName.Name))
 					}
 				}
 				b.WriteString(dt)
@@ -366,18 +399,15 @@ func render(forest []*Node) Shape {
 		decls = append(decls, "$f: Boolean!")
 		vars["f"] = false
 	}
-	if used["n"] {
-		decls = append(decls, "$n: String!")
-		vars["n"] = sentinelTypeName
-	}
-	if used["d"] {
-		decls = append(decls, fmt.Sprintf("$d: String! = %q", sentinelTypeName))
+	decls = append(decls, nameDecls...)
+	for k, v := range nameVars {
+		vars[k] = v
 	}
 	head := "query Q"
 	if len(decls) > 0 {
 		head += "(" + strings.Join(decls, ", ") + ")"
 	}
-	sh := Shape{Query: head + " {\n" + body + "}\n" + fragText.String(), Variables: vars, MetaKeys: map[string]string{}, Fillers: map[string]string{}}
+	sh := Shape{Query: head + " {\n" + body + "}\n" + fragText.String(), Variables: vars, MetaKeys: map[string]string{}, MetaNames: map[string]typeName{}, Fillers: map[string]string{}}
 
 	// reference: which response keys are reachable (own directive and every enclosing
 	// fragment's directive let the selection through)
@@ -396,6 +426,9 @@ func render(forest []*Node) Shape {
 				}
 				if n.Meta {
 					sh.MetaKeys[key] = n.Name
+					if n.Name == "__type" {
+						sh.MetaNames[key] = n.TName
+					}
 				} else if n.Name == "__typename" {
 					sh.Fillers[key] = `"Query"`
 				} else {
@@ -444,12 +477,19 @@ func shapeSkeletons(maxNodes int) [][]*Node {
 // the shape's index and a function that renders it. Walking is cheap (no rendering), so
 // parallel workers each walk the whole space and render only the indices they own. The
 // skeletons are cloned before they are decorated, so they can be shared. f returns false to stop.
-func enumerateShapes(skeletons [][]*Node, dirs []string, f func(idx int, render func() Shape) bool) (total int) {
+//
+// A skeleton with at most namesFullUpto nodes takes the name of each __type from the full
+// alphabet typeNamesFull, larger ones from typeNamesShort.
+func enumerateShapes(skeletons [][]*Node, dirs []string, namesFullUpto int, f func(idx int, render func() Shape) bool) (total int) {
 	idx := 0
 	stop := false
 	for _, sk := range skeletons {
 		forest := cloneForest(sk)
-		decorate(forest, dirs, func() {
+		names := typeNamesShort
+		if countNodes(forest) <= namesFullUpto {
+			names = typeNamesFull
+		}
+		decorate(forest, dirs, names, func() {
 			if stop {
 				return
 			}
@@ -463,4 +503,12 @@ func enumerateShapes(skeletons [][]*Node, dirs []string, f func(idx int, render 
 		}
 	}
 	return idx
+}
+
+func countNodes(ns []*Node) int {
+	c := 0
+	for _, n := range ns {
+		c += 1 + countNodes(n.Kids)
+	}
+	return c
 }
